@@ -112,10 +112,10 @@ impl<B: TextWriter> NanParser<B> {
     }
 
     pub fn end(self) -> Result<ParsedNan<B>, ParseError> {
-        debug_assert!(
-            self.error.is_none(),
-            "attempt to complete a parser with an error context"
-        );
+        // If parsing already failed then the parser stays failed
+        if let Some(err) = self.error {
+            return Err(err);
+        }
 
         match (self.buf.expecting, self.payload) {
             (
@@ -145,6 +145,10 @@ impl<B: TextWriter> NanParser<B> {
         }
     }
 
+    pub(in crate::text) fn has_error(&self) -> bool {
+        self.error.is_some()
+    }
+
     pub fn context(&mut self, err: ParseError) -> fmt::Error {
         self.error = Some(err);
         fmt::Error
@@ -161,6 +165,10 @@ impl<B: TextWriter> NanParser<B> {
 
 impl<B: TextWriter> Write for NanParser<B> {
     fn write_str(&mut self, s: &str) -> fmt::Result {
+        if self.has_error() {
+            return Err(fmt::Error);
+        }
+
         self.parse_ascii(s.as_bytes())
             .map_err(|err| self.context(err))
     }
